@@ -38,6 +38,10 @@ def _world(r):
         names['n'] = [gen.host_list_spec(r, 1, 3, depth=0), gen.host_dict_spec(r, 1, 2, depth=0)]
     if r.random() < 0.04:
         names['bd'] = {'drange': 10000}      # a host dict that has reached the size cap (replacing an entry is refused like adding one)
+    if r.random() < 0.12:
+        names['bl'] = [0] * 64 + [[1]] + [0] * 15 + [{'m': [['k', [2]]]}] + [0] * 49       # 130 elements, containers at 64 and 80
+    if r.random() < 0.08:
+        names['bl2'] = [0] * 105 + [[3]] + [0] * 34                                       # 140 elements, one list at position 105
     if r.random() < 0.3:
         names['nv'] = None                   # a host variable that holds nothing yet
     if r.random() < 0.3:
